@@ -299,6 +299,7 @@ class LoadSurferCase(Contract):
             rel = 1e-6 if str(a.dtype) == "float32" else 1e-12
             ok = bool(np.array_equal(np.isnan(vals), blank) and np.allclose(vals[~blank], written[~blank], rtol=rel, atol=0))
         out["values_are_those_written_row_by_row_blank_cells_nan"] = ok
+        out["values_have_the_requested_dtype"] = str(np.asarray(grid.values).dtype) == str(a.dtype)  # ("both dtypes", path or file object)
         # "a file whose body disagrees with its header in ... data range raises an error instead of returning data": a
         # returned grid comes from a file whose header limits are the body's, up to the digits a header is written with
         goodb = body[body < SENTINEL]
